@@ -493,3 +493,8 @@ def check(ctx, run):  # noqa: F811
     _check_before_histories(ctx, run)
     from ..registry import primary_histories_rule
     primary_histories_rule(ctx, run, "C11.R10")
+    # the library's own engine returns the requested number of paths (the generators assume engine(*size) has that size)
+    from .c10 import antithetic_rule
+    antithetic_rule(ctx, run, "C11.R10")
+    from ..registry import reconfigure_rule
+    reconfigure_rule(ctx, run, "C11.R10")
